@@ -367,6 +367,72 @@ var Scenarios = []Scenario{
 		}
 		return out
 	}},
+	{Name: "F14-rejected-call-in-callback-through-the-same-mapper", Props: []string{"C07", "C04", "C06", "C09", "C10"}, Run: func() []string {
+		var out []string
+		// a call rejected because the world is locked must have no effect - also not on the operation in progress,
+		// when it goes through the mapper / exchange object that operation was called on (shared relation buffer)
+		check := func(name string, run func(w *ecs.World, m *ecs.Map1[u.R0], ex *ecs.Exchange1[u.R0], f *ecs.Filter1[u.P8], pT, pO ecs.Entity, nested func(e ecs.Entity))) {
+			w := ecs.NewWorld(4)
+			m := ecs.NewMap1[u.R0](w)
+			ex := ecs.NewExchange1[u.R0](w)
+			pm := ecs.NewMap1[u.P8](w)
+			f := ecs.NewFilter1[u.P8](w)
+			p0, pT, pO := w.NewEntity(), w.NewEntity(), w.NewEntity()
+			var es []ecs.Entity
+			for i := 0; i < 3; i++ {
+				es = append(es, pm.NewEntity(&u.P8{V: int64(i)}))
+			}
+			_ = p0
+			rejected := 0
+			nested := func(e ecs.Entity) {
+				if try(func() { m.SetRelations(e, ecs.RelIdx(0, pO)) }) != nil {
+					rejected++
+				}
+				if try(func() { ex.Add(e, &u.R0{}, ecs.RelIdx(0, pO)) }) != nil {
+					rejected++
+				}
+			}
+			run(w, m, ex, f, pT, pO, nested)
+			if rejected == 0 {
+				out = append(out, name+": no nested call was rejected")
+			}
+			for _, e := range es {
+				if tg := m.GetRelation(e, 0); tg != pT {
+					out = append(out, fmt.Sprintf("%s: entity %v has target %v, want %v", name, e, tg, pT))
+				}
+			}
+			w.RemoveEntity(pT)
+			for _, e := range es {
+				if tg := m.GetRelation(e, 0); !tg.IsZero() {
+					out = append(out, fmt.Sprintf("%s: entity %v still points to the removed target %v", name, e, tg))
+				}
+			}
+		}
+		check("Map1.AddBatchFn", func(w *ecs.World, m *ecs.Map1[u.R0], ex *ecs.Exchange1[u.R0], f *ecs.Filter1[u.P8], pT, pO ecs.Entity, nested func(ecs.Entity)) {
+			m.AddBatchFn(f.Batch(), func(e ecs.Entity, _ *u.R0) { nested(e) }, ecs.RelIdx(0, pT))
+		})
+		check("Exchange1.AddBatchFn", func(w *ecs.World, m *ecs.Map1[u.R0], ex *ecs.Exchange1[u.R0], f *ecs.Filter1[u.P8], pT, pO ecs.Entity, nested func(ecs.Entity)) {
+			ex.AddBatchFn(f.Batch(), func(e ecs.Entity, _ *u.R0) { nested(e) }, ecs.RelIdx(0, pT))
+		})
+		check("Map1.SetRelationsBatch", func(w *ecs.World, m *ecs.Map1[u.R0], ex *ecs.Exchange1[u.R0], f *ecs.Filter1[u.P8], pT, pO ecs.Entity, nested func(ecs.Entity)) {
+			m.AddBatch(f.Batch(), &u.R0{}, ecs.RelIdx(0, pO))
+			m.SetRelationsBatch(f.Batch(), func(e ecs.Entity) { nested(e) }, ecs.RelIdx(0, pT))
+		})
+		check("Map1.SetRelations with an OnRemoveRelations observer", func(w *ecs.World, m *ecs.Map1[u.R0], ex *ecs.Exchange1[u.R0], f *ecs.Filter1[u.P8], pT, pO ecs.Entity, nested func(ecs.Entity)) {
+			m.AddBatch(f.Batch(), &u.R0{}, ecs.RelIdx(0, pO))
+			obs := ecs.Observe(ecs.OnRemoveRelations).Do(func(e ecs.Entity) { nested(e) }).Register(w)
+			q := f.Query()
+			var es []ecs.Entity
+			for q.Next() {
+				es = append(es, q.Entity())
+			}
+			for _, e := range es {
+				m.SetRelations(e, ecs.RelIdx(0, pT))
+			}
+			obs.Unregister(w)
+		})
+		return out
+	}},
 }
 
 // maxComponentIDs registers filler component types until the registry is full and returns all IDs.
